@@ -3,6 +3,7 @@ package props
 import (
 	"bytes"
 	"fmt"
+	"github.com/ipld/go-ipld-prime/node/gendemo"
 	"io"
 	"strings"
 	rs "verif/lib/ref/schema"
@@ -114,8 +115,39 @@ func (c11) RunCase(c *fw.Ctx, rng *fw.RNG, batch, i int) {
 	// ---- producers
 	nprod := 3 + rng.Intn(3)
 	for k := 0; k < nprod; k++ {
-		v := model.Gen(rng, c11Opts)
-		switch rng.Intn(10) {
+		opts := c11Opts
+		if deepCase(c, i) {
+			opts.MaxDepth, opts.MaxWidth = 6, 9
+		}
+		v := model.Gen(rng, opts)
+		switch rng.Intn(11) {
+		case 10: // typed nodes of the checked-in generated code (node/gendemo), type and representation builders kept
+			c12Init()
+			type gd struct {
+				name  string
+				proto datamodel.NodePrototype
+				gen   func(*fw.RNG) model.Val
+			}
+			gds := []gd{{"gendemo.Msg3", gendemo.Type.Msg3, c12GenMsg3}, {"gendemo.Msg3.Repr", gendemo.Type.Msg3__Repr, c12GenMsg3},
+				{"gendemo.Map__String__Msg3", gendemo.Type.Map__String__Msg3, c12GenMapMsg3}, {"gendemo.Map__String__Msg3.Repr", gendemo.Type.Map__String__Msg3__Repr, c12GenMapMsg3}}
+			g := gds[rng.Intn(len(gds))]
+			gr := rng.Fork()
+			rebuild := func(nb datamodel.NodeBuilder) (err error) {
+				defer func() {
+					if r := recover(); r != nil {
+						err = fmt.Errorf("panic: %v", r)
+					}
+				}()
+				return build.Assemble(nb, g.gen(gr), &build.Prog{Plain: true})
+			}
+			nb := g.proto.NewBuilder()
+			if rebuild(nb) != nil {
+				continue
+			}
+			c.Count("gendemo_nodes_tracked", 1)
+			trackOpts = obs.Options{Typed: true, NoWrongKindProbes: true}
+			tt := track("typed "+g.name, nb.Build(), nb, g.proto)
+			tt.rebuild = rebuild
 		case 8, 9: // typed nodes: bindnode over a random type system (inferred or user-supplied Go types); builder kept
 			ts := schemagen.Gen(rng, schemagen.Opts{Types: 4 + rng.Intn(4)})
 			lib, err := schemagen.ToLibrary(ts)
